@@ -829,4 +829,38 @@ example :
 
 example : validate [{ typ := .dns, value := s "*.example.com" }, { typ := .ip, value := s "10.0.0.1", ip := v4InV6Prefix ++ [10, 0, 0, 1] }] = .ok := by decide
 
+/-! ## 5. api.NewOrder: one authorization per identifier -/
+
+/-- **order_authz_cover**: `api.NewOrder` stores exactly one authorization per order identifier, in
+    order; the i-th authorization backs the i-th identifier (same type, same name, same wildcard
+    flag), and a wildcard authorization offers dns-01 only. With C10's
+    `finalizable_order_authorizations` (a finalizable order's authorizations are all valid and owned
+    by the order's account) this is "each identifier is backed by a valid authorization of the same
+    account". -/
+theorem order_authz_cover (enabled : List ChalType) (ids : List Identifier) :
+    (newOrderAuthzs enabled ids).length = ids.length ∧
+    ∀ (i : Nat) (id : Identifier), ids[i]? = some id →
+      ∃ a, (newOrderAuthzs enabled ids)[i]? = some a ∧ backs a id = true ∧
+        a.value = trimIfWildcard id.value ∧
+        (a.wildcard = true → ∀ c ∈ a.chals, c = .dns01 ∨ a.typ ≠ .dns) := by
+  refine ⟨by simp [newOrderAuthzs], ?_⟩
+  intro i id h
+  refine ⟨newAuthorization enabled id, by simp [newOrderAuthzs, h], by simp [backs, newAuthorization], rfl, ?_⟩
+  intro hw c hc
+  simp [newAuthorization] at hw hc
+  cases ht : id.typ <;> simp [newAuthorization, challengeTypes, ht, hw] at hc ⊢
+  exact hc.1
+
+/-- a base name's authorization does not back the wildcard name and vice versa: sharing one
+    authorization between `example.com` and `*.example.com` leaves one of them unbacked -/
+theorem backs_wildcard_distinct (a : AuthzSpec) (x y : Identifier)
+    (hx : backs a x = true) (hy : backs a y = true) : isWildcard x.value = isWildcard y.value := by
+  simp [backs] at hx hy
+  rw [← hx.1.2, ← hy.1.2]
+
+example : backs (newAuthorization [.dns01, .http01] { typ := .dns, value := s "example.com" })
+    { typ := .dns, value := s "*.example.com" } = false := by decide
+example : newOrderAuthzs [.dns01, .http01, .tlsalpn01] [{ typ := .dns, value := s "a.io" }, { typ := .dns, value := s "*.a.io" }] =
+    [⟨.dns, s "a.io", false, [.dns01, .http01, .tlsalpn01]⟩, ⟨.dns, s "a.io", true, [.dns01]⟩] := by decide
+
 end Verif.AcmeSans
